@@ -206,6 +206,8 @@ def orf_contract(text):
                 exp.append((i, j, "".join(aa)))
     if got != sorted(exp):
         return f"ORFs {got} != in-frame stretches {sorted(exp)}"
+    if [int(a) for a, b in pos] != sorted(int(a) for a, b in pos):
+        return f"ORF positions {[(int(a), int(b)) for a, b in pos]} are not sorted by their start"
     return None
 
 
@@ -213,6 +215,15 @@ pool = ["ATG", "TAA", "CCC", "TTG", "A", "AT"]
 for parts in itertools.product(pool, repeat=3):
     t = "".join(parts)
     R.check("ORFs are the in-frame stretches from each start codon to the first stop / frame end", "orf", {"seq": t}, lambda t=t: orf_contract(t))
+
+# ORFs in several reading frames, a later frame starting earlier in the sequence
+_orf_rng = np.random.default_rng(R.args.seed + 303)
+LONG = ["CATGAAATAACCATGCCCTAG", "AATGCCCATGATGTAAGATGA", "ATGATGATGTAAATGA", "TTGCATGACATGTAGATGCC"]
+for _ in range(60 if not R.thorough else 400):
+    n = int(_orf_rng.integers(9, 40))
+    LONG.append("".join(_orf_rng.choice(["ATG", "TAA", "TGA", "CCC", "A", "C", "GT", "TTG"], size=n))[:45])
+for t in LONG:
+    R.check("ORFs are the in-frame stretches from each start codon to the first stop / frame end", "orf in several frames", {"seq": t}, lambda t=t: orf_contract(t))
 
 mapper_src, mapper_tgt = seq.NucleotideSequence.alphabet_unamb, seq.NucleotideSequence.alphabet_amb
 
